@@ -506,7 +506,11 @@ class OptionAlphabet:
                   # an option parser
                   "runs/seed=3/ape.pdf", "k=v=w.zip", "my plot.png",
                   "a,b.csv", "tr\u00e4j.zip", "./x:y.json", "50%.txt",
-                  "@home.txt", "x=-1.zip"]
+                  "@home.txt", "x=-1.zip",
+                  # a literal '$' (quoted on the shell's command line): names
+                  # that are and are not defined in the process environment
+                  "$HOME/out.pdf", "plots_${HOME}/a.pdf", "cost_$5.txt",
+                  "$NO_SUCH_VARIABLE_X/y.zip", "~/tilde.json"]
     INT_VALUES = ["0", "1", "5", "500", "12", "1000", "+7", "007",
                   # not representable as a double
                   "9007199254740993", "123456789012345678"]
